@@ -5,7 +5,6 @@ import (
 	"os"
 
 	"github.com/grafana/cog/internal/ast/compiler"
-	"gopkg.in/yaml.v3"
 )
 
 type Compiler struct {
@@ -51,10 +50,7 @@ func (loader *CompilerLoader) LoadAll(readers []io.Reader) (compiler.Passes, err
 func (loader *CompilerLoader) Load(reader io.Reader) (compiler.Passes, error) {
 	compilerConfig := &Compiler{}
 
-	decoder := yaml.NewDecoder(reader)
-	decoder.KnownFields(true)
-
-	if err := decoder.Decode(&compilerConfig); err != nil {
+	if err := DecodeStrict(reader, compilerConfig); err != nil {
 		return nil, err
 	}
 
